@@ -74,6 +74,20 @@ def episode1(ctx: Ctx, chk) -> None:
         return
     req = unbuf[0]
     term = cn.canon(req.args[0]) if req.args else ""
+    # `x = None if <K in markers> else Message(..)` ... `if x is not None: send(x)`: at the send x is the message and the
+    # send is guarded by `K not in markers`
+    implied_guard = None
+    import re as _re
+
+    m_ = _re.match(r"^None if (.+ in message_buffer\.internal_messages) else (Message\(.*\))$", term)
+    if m_ and req.args and isinstance(req.args[0], ast.Name):
+        nm_ = req.args[0].id
+        rn_ = g.nodes_where(lambda x: x.contains(req))
+        for t_ in g.nodes:
+            if t_.kind == "test" and norm(t_.ast) == f"{nm_} is not None" and rn_ and all(g.dominates(t_, r_) for r_ in rn_):
+                other_ = [s_ for s_, lab_ in t_.succ if lab_ == "f"]
+                if g.reach_avoiding(other_, lambda x: x in rn_, lambda x, t_=t_: x is t_, from_succ=False) is None:
+                    term, implied_guard = m_.group(2), m_.group(1)
     pv = _presentation_value(ctx, "2.0")
     want_terms = {
         f"Message(node_id=In.node_id, child_id=255, command=3, message_type={pv})",
@@ -113,6 +127,13 @@ def episode1(ctx: Ctx, chk) -> None:
             else:
                 chk.refute(rule, key, f"the outstanding-request test uses the key {kc}; the marker of this node is (In.node_id, 255, I_PRESENTATION)", ctx.loc(w, t.ast))
                 good = None
+    if implied_guard is not None and good is False:
+        kc_ = implied_guard.rsplit(" in message_buffer.internal_messages", 1)[0]
+        if kc_ == f"(In.node_id, 255, {pv})":
+            good = True
+        else:
+            chk.refute(rule, key, f"the outstanding-request test uses the key {kc_}; the marker of this node is (In.node_id, 255, I_PRESENTATION)", ctx.loc(w, req))
+            good = None
     if good:
         chk.ok(rule, key, "request sent only if (In.node_id, 255, I_PRESENTATION) not in internal_messages", ctx.loc(w, req))
     elif good is False:
